@@ -886,7 +886,7 @@ def simplify_cfg(cfg, ops, key: str):
             run, bad = evaluate(cand, ops)
         except Exception:  # noqa: BLE001
             continue
-        if run.linx_ok and any(b[0] == key for b in bad):
+        if run.linx_ok and run.exact and any(b[0] == key for b in bad):
             cur = cand
     return cur
 
@@ -958,7 +958,7 @@ def check_cases(res: Result, cases, rng, in_scope: bool = True) -> None:
             if not well_formed(ncfg, nops) or not in_quantifier(ncfg, nops):
                 continue
             r2, b2 = evaluate(ncfg, nops)
-            if b2 and r2.linx_ok:
+            if b2 and r2.linx_ok and r2.exact:
                 key = b2[0][0]
                 small = shrink(ncfg, nops, key)
                 r3, b3 = evaluate(ncfg, small)
